@@ -154,9 +154,11 @@ def show(v) -> str:
 
 
 class Summary:
-    __slots__ = ("ret", "reached", "raises", "normal", "branches")
+    __slots__ = ("ret", "reached", "raises", "normal", "branches", "ret_consts", "ret_nonconst")
 
     def __init__(self):
+        self.ret_consts: Set = set()  # constant values returned in this context (ints / None)
+        self.ret_nonconst = False  # some return value is not a known constant
         self.branches: Set[Tuple[int, bool]] = set()  # feasible (if-stmt, outcome) pairs
         self.ret: FrozenSet = BOT
         self.reached: Set[int] = set()  # id(stmt) of statements reached
@@ -507,6 +509,9 @@ class Frame:
         out = self.block(self.fi.node.body, env)
         if out is not None:
             self.eng.note_pout(self.fi, out)
+            if None not in self.sm.ret_consts:
+                self.sm.ret_consts.add(None)
+                self.eng.changed = True
             if not self.sm.normal:
                 self.sm.normal = True
                 self.eng.changed = True
@@ -534,6 +539,14 @@ class Frame:
                 self._update_ret(v)
             if v or s.value is None:
                 self.eng.note_pout(self.fi, env)
+                cv = (None,) if s.value is None else self.const_eval(s.value, env)
+                if cv is not None and (cv[0] is None or isinstance(cv[0], int)):
+                    if cv[0] not in self.sm.ret_consts:
+                        self.sm.ret_consts.add(cv[0])
+                        self.eng.changed = True
+                elif not self.sm.ret_nonconst:
+                    self.sm.ret_nonconst = True
+                    self.eng.changed = True
             if (v or s.value is None) and not self.sm.normal:
                 # a `return f(...)` whose callee never returns (raises on every path / diverges) is not a normal exit
                 self.sm.normal = True
@@ -714,14 +727,6 @@ class Frame:
 
     def assign(self, t, v: FrozenSet, env: Env, value_node, weak=False):
         if isinstance(t, ast.Name):
-            kf = None
-            if value_node is not None and isinstance(value_node, ast.Call):
-                cn = value_node.func.id if isinstance(value_node.func, ast.Name) else (
-                    value_node.func.attr if isinstance(value_node.func, ast.Attribute) else None)
-                kf = KERNEL_TYPE_FACTS.get((self.fi.short, cn))
-            if kf is not None:
-                self.eng.kernel_fact_uses.add((self.fi.short, t.id))
-                v = FS(x for x in v if x == kf[0])
             env.set(t.id, v)
             env.consts.pop(t.id, None)
             if value_node is not None:
@@ -854,12 +859,32 @@ class Frame:
                     return res.pop()
         if isinstance(test, ast.Constant) and isinstance(test.value, bool):
             return test.value
+        if isinstance(test, ast.UnaryOp) and isinstance(test.op, ast.Not):
+            f = self.fold(test.operand, env)
+            return None if f is None else (not f)
+        if isinstance(test, ast.BoolOp):
+            fs = [self.fold(v, env) for v in test.values]
+            if isinstance(test.op, ast.Or):
+                if any(f is True for f in fs):
+                    return True
+                if all(f is False for f in fs):
+                    return False
+            else:
+                if any(f is False for f in fs):
+                    return False
+                if all(f is True for f in fs):
+                    return True
+            return None
         if isinstance(test, ast.Compare) and len(test.ops) == 1:
             a = self.const_eval(test.left, env)
             b = self.const_eval(test.comparators[0], env)
             if a is not None and b is not None:
                 op = test.ops[0]
                 try:
+                    if isinstance(op, ast.Is):
+                        return a[0] is b[0] if (a[0] is None or b[0] is None) else None
+                    if isinstance(op, ast.IsNot):
+                        return a[0] is not b[0] if (a[0] is None or b[0] is None) else None
                     if isinstance(op, ast.In) and isinstance(b[0], tuple):
                         return a[0] in b[0]
                     if isinstance(op, ast.NotIn) and isinstance(b[0], tuple):
@@ -885,8 +910,23 @@ class Frame:
         type set is one class (e.g. other.class_level), or a literal."""
         if isinstance(e, ast.Constant) and isinstance(e.value, (int, float)) and not isinstance(e.value, bool):
             return (e.value,)
+        if isinstance(e, ast.Constant) and e.value is None:
+            return (None,)
         if isinstance(e, ast.Name) and e.id in env.consts:
             return (env.consts[e.id],)
+        if isinstance(e, ast.Call) and isinstance(e.func, ast.Name) and not e.keywords and e.func.id != "len" \
+                and not any(isinstance(a, ast.Starred) for a in e.args):
+            # a plain function that returns one known constant in the context of this call (e.g. a rank of the operand's type)
+            tg = self.eng.call_targets.get((self.fi.qual, id(e)), set())
+            if len(tg) == 1:
+                cal = self.eng.fn_by_qual.get(next(iter(tg)))
+                if cal is not None and cal.cls is None and not cal.is_generator:
+                    args = tuple(self.ev(a, env) for a in e.args)
+                    if all(len(a) == 1 for a in args):
+                        sm = self.eng.summary(cal, args)
+                        if sm is not None and not sm.ret_nonconst and len(sm.ret_consts) == 1 and not sm.raises:
+                            return (next(iter(sm.ret_consts)),)
+            return None
         if isinstance(e, ast.Call) and isinstance(e.func, ast.Name) and e.func.id == "len" and len(e.args) == 1 and not e.keywords:
             v = self.ev(e.args[0], env)
             lens = set()
@@ -1144,8 +1184,10 @@ class Frame:
             b = self.narrow(e.test, env, False) if fz is not True else None
             out = BOT
             if a is not None:
+                self.sm.branches.add((id(e), True))
                 out |= self.ev(e.body, a)
             if b is not None:
+                self.sm.branches.add((id(e), False))
                 out |= self.ev(e.orelse, b)
             return out
         if isinstance(e, ast.Tuple):
@@ -1427,6 +1469,12 @@ class Frame:
         targets = eng.call_targets.setdefault((self.fi.qual, id(e)), set())
         for t in fv:
             out |= self.apply(t, pos, kw, e, env, star_unknown, targets)
+        # kernel type fact (assumption A4): applies to the call wherever its value goes (a local or an argument)
+        cn = e.func.id if isinstance(e.func, ast.Name) else (e.func.attr if isinstance(e.func, ast.Attribute) else None)
+        kf = KERNEL_TYPE_FACTS.get((self.fi.short, cn))
+        if kf is not None:
+            self.eng.kernel_fact_uses.add((self.fi.short, cn))
+            out = FS(x for x in out if x == kf[0])
         return out
 
     def callee_value(self, f, env: Env) -> FrozenSet:
